@@ -33,6 +33,10 @@ TIERS = {
     "thorough": [
         ("main", dict(op0="full", op1="full", op2="full", op3="full", op4="s8",
                       ef0="full", ef1="full", ef2="full", ef3="s12", ef4="s8")),
+        # the same calls with ArgumentsInTrace / LocalVariablesInTrace switched on: every LPC error then renders the
+        # arguments and locals of every frame into the trace
+        ("trace", dict(op0="full", op1="full", op2="s16", op3="none", op4="none",
+                       ef0="full", ef1="full", ef2="s12", ef3="none", ef4="none", **{"trace-args": "1"})),
     ],
 }
 DEADLINE = {"quick": 165, "thorough": 2000}
@@ -112,7 +116,7 @@ def run(ck):
     ck.finish(vlib.enum_coverage(ck.parts, rule, "nontrivial", extra),
               assumptions=[
                   "each call runs in a fork()ed copy of the initialised driver with its own scratch mudlib root (copy of fx/: a.c abc.c a.o abc master.c ...); nothing under /verif/mudlib is written",
-                  "master: valid_read/valid_write/valid_seteuid allow, valid_socket refuses; no interactive user exists; MaxEvaluationCost 200000",
+                  "master: valid_read/valid_write/valid_seteuid allow, valid_socket refuses; no interactive user exists; MaxEvaluationCost 200000; ArgumentsInTrace/LocalVariablesInTrace off except in the thorough part 'trace'",
                   "efuns not called: " + ", ".join(x[0] for x in excluded),
                   "signed-overflow / shift UBSan checks are off (the property does not list them); SIGFPE from integer division is reported because it terminates the driver",
                   "a single allocation above 1 GiB is refused by the sanitizer allocator (max_allocation_size_mb=1024): the driver then exits through xalloc()/fatal(), which is reported as driver-exit:...:xalloc (a one-line LPC that makes the driver request > 1 GiB); quarantine is 16 MiB per process",
